@@ -4,6 +4,7 @@ Driver: reads the harness trace on stdin, re-executes each record on the model, 
 -/
 import Anytype.Driver.Exec
 import Anytype.Driver.Fn
+import Anytype.Driver.Sl
 namespace Anytype.Driver
 open Anytype Std
 
@@ -22,6 +23,7 @@ def handleLine (line : String) : M Unit := do
   | ["op", name, recv, args, obs] => execOp name recv (splitTokens args) obs
   | ["snap", handle, content] => execSnap handle content
   | "fn" :: name :: rest => execFn name rest
+  | ["sl", op, outcome, snap] => execSl op outcome snap
   | _ => fail s!"protocol: unrecognised record"
 
 partial def loop (stdin : IO.FS.Stream) (st : DS) (tot : Totals) (skipping : Bool) (caseHdr : String) : IO Totals := do
